@@ -1521,7 +1521,7 @@ def C20_generic(g, tier):
                 continue
             if op in VEC_ONLY or op in ("term", "law") or op.startswith("l") or op.startswith("sfa") or op == "hg_empty":
                 continue
-            if rest.startswith("vec ") or rest.startswith("adv "):
+            if rest.startswith(("vec ", "adv ", "adv2 ")):
                 continue
             n += 1
             if tier == "quick" and n % 3:
